@@ -16,7 +16,7 @@ from pymatgen.core import Structure
 
 from .caching import weak_lru_cache
 from .metrics import TrajectoryMetrics
-from .utils import bfill, ffill, integer_remap
+from .utils import bfill, ffill
 
 if typing.TYPE_CHECKING:
     from gemdat.jumps import Jumps
@@ -550,7 +550,8 @@ def _calculate_atom_states(
         siteno, index = site_index.T
 
         if key is not None:
-            siteno = integer_remap(a=siteno, key=key, palette=np.unique(siteno))
+            # map the index within the label group to the index in `sites`
+            siteno = key[siteno]
 
         atom_sites[index] = siteno
 
